@@ -941,6 +941,37 @@ def gen_c01_dense(rng, mode):
     return g.finish()
 
 
+def from_graveyard(rng, hist):
+    """drv_db script for one behaviour printed by GenGraveyard.tla (whole API calls on one table)."""
+    g = DBGen(rng, "c08")
+    g.add(op="config", nilempty=False)
+    t = g.newtable()
+    its = {}
+
+    def obj(k):
+        return dict(pk=PKS[k], val=rng.randint(1, 9), hasU=False, u=[], tags=[], pfx=[], hasUp=False, upfx=[])
+
+    for h in hist:
+        op = h["op"]
+        if op in ("upsert", "delete"):
+            tx = g.begin([t])
+            g.add(op="insert" if op == "upsert" else "delete", tx=tx, t=t, obj=obj(h["k"]), guard=0, gsym="", w=0)
+            g.commit(tx)
+        elif op == "changes":
+            tx = g.begin([t])
+            its[h["i"]] = g.changes(tx, t)
+            g.commit(tx)
+        elif op == "next":
+            s = g.snap()
+            g.next(its[h["i"]], src=g.snap_src(s), take=h["n"])
+        elif op == "close":
+            g.iterclose(its[h["i"]])
+        elif op == "time":
+            g.sleep(2500)
+            g.grave(t, quiet=bool(h["exact"]))
+    return g.finish()
+
+
 MODES = {
     "c01dense": gen_c01_dense, "c02dense": gen_c01_dense,
     "c06dense": gen_c06_dense,
